@@ -16,6 +16,8 @@ func runC03(ctx *core.Ctx) {
 	ctx.Trusted = append(ctx.Trusted, "go/types, go/ssa", "library-fact table of the bounds engine (bytes.Index*, HasPrefix/HasSuffix, TrimSpace, len/cap semantics)",
 		"standard-library callees (bytes.*, strings.*, os.ReadFile, golang.org/x/tools/txtar.Format) are total on in-range arguments")
 	ctx.Rule("TOT", "totality of txtar.Parse/ParseFile: every index and slice expression, type assertion, division, make and explicit panic in every module function reachable from Parse and ParseFile is proved unable to panic, from facts that dominate it on the control-flow graph pruned at no-return calls", 10)
+	ctx.Rule("EXIT", "the marker search gives up only when the library search found nothing: its no-marker return (empty name) is reached only on the edge where bytes.Index returned a negative result", 1)
+	ctx.Rule("DISC", "the parser's loop continues exactly on the component by which the marker search reports a hit: the result that is constant-empty on the search's no-marker return and known non-empty on its marker return", 1)
 	ctx.Rule("PROG", "progress of the marker search: in the function reachable from Parse that scans for a marker (the loop containing the bytes.Index call), the loop-carried index strictly increases on every back edge and stays <= len(data), so the search terminates", 1)
 	parse := ctx.Need("TOT", "txtar", "Parse")
 	parseFile := ctx.Need("TOT", "txtar", "ParseFile")
@@ -23,6 +25,8 @@ func runC03(ctx *core.Ctx) {
 		return
 	}
 	totality(ctx, []*ssa.Function{parse, parseFile}, totalOpts{rule: "TOT"})
+
+	searchRules(ctx, parse)
 
 	// PROG: find loops whose header phi is advanced by a bytes.Index result.
 	for _, f := range reachableMod(ctx.P, []*ssa.Function{parse}, nil) {
@@ -111,4 +115,127 @@ func itoa(i int) string {
 		s = "-" + s
 	}
 	return s
+}
+
+// discriminator returns the result indexes of the marker search that are a
+// constant empty value on its no-marker return and known non-empty on its
+// marker return.
+func discriminator(p *core.Prog, search *ssa.Function) (disc map[int]bool, notFound, found []*ssa.Return) {
+	g := graph(p, search)
+	disc = map[int]bool{}
+	nres := search.Signature.Results().Len()
+	isEmptyConst := func(v ssa.Value) bool {
+		if ssax.IsNil(v) {
+			return true
+		}
+		s, ok := ssax.ConstString(v)
+		return ok && s == ""
+	}
+	for _, r := range g.Returns() {
+		rv := ssax.ReturnValues(r)
+		anyEmpty := false
+		for _, v := range rv {
+			if s, ok := ssax.ConstString(v); ok && s == "" {
+				anyEmpty = true
+			}
+		}
+		if anyEmpty {
+			notFound = append(notFound, r)
+		} else {
+			found = append(found, r)
+		}
+	}
+	for k := 0; k < nres; k++ {
+		ok := len(notFound) > 0 && len(found) > 0
+		for _, r := range notFound {
+			if !isEmptyConst(ssax.ReturnValues(r)[k]) {
+				ok = false
+			}
+		}
+		for _, r := range found {
+			v := ssax.ReturnValues(r)[k]
+			facts := g.FactsAtInstr(r)
+			nonEmpty := cmpFact(facts, token.NEQ, isVal(v), isConstStr("")) || ssax.KnownNil(facts, v, false)
+			if !nonEmpty {
+				ok = false
+			}
+		}
+		if ok {
+			disc[k] = true
+		}
+	}
+	return
+}
+
+// sharedSearch finds the module function with a tuple result that f calls.
+func tupleCallees(p *core.Prog, f *ssa.Function) map[*ssa.Function][]*ssa.Call {
+	m := map[*ssa.Function][]*ssa.Call{}
+	graph(p, f).Instrs(func(i ssa.Instruction) {
+		if c, ok := i.(*ssa.Call); ok {
+			if cal := c.Call.StaticCallee(); cal != nil && core.InModule(cal) && cal.Signature.Results().Len() > 1 {
+				m[cal] = append(m[cal], c)
+			}
+		}
+	})
+	return m
+}
+
+func searchRules(ctx *core.Ctx, parse *ssa.Function) {
+	p := ctx.P
+	var search *ssa.Function
+	for f := range tupleCallees(p, parse) {
+		search = f
+	}
+	if search == nil {
+		ctx.Unknown("DISC", "txtar.Parse#search", parse.Pos(), "Parse calls no marker-search function with a tuple result")
+		return
+	}
+	ctx.Seen(search)
+	disc, notFound, _ := discriminator(p, search)
+	// EXIT
+	g := graph(p, search)
+	for k, r := range notFound {
+		facts := g.FactsAtInstr(r)
+		ok := cmpFact(facts, token.LSS, isCallOf([]string{"bytes.Index", "strings.Index", "bytes.IndexByte"}), isConstIntV(0))
+		ctx.Check(ok, "EXIT", shortFn(search)+"#no-marker-return"+itoa(k+1), r.Pos(), "the search reports 'no further marker' only when bytes.Index returned < 0 (a weaker test such as <= 0 abandons the search while a marker line is still ahead)")
+	}
+	if len(notFound) == 0 {
+		ctx.Bad("EXIT", shortFn(search)+"#no-marker-return", search.Pos(), "the search has no 'no further marker' return")
+	}
+	// DISC: Parse's loop conditions that depend on the search result
+	gp := graph(p, parse)
+	used := map[int]bool{}
+	gp.Instrs(func(i ssa.Instruction) {
+		ifi, ok := i.(*ssa.If)
+		if !ok {
+			return
+		}
+		for idx := 0; idx < search.Signature.Results().Len(); idx++ {
+			idx := idx
+			if ssax.DerivedFrom(ifi.Cond, func(v ssa.Value) bool {
+				e, ok := v.(*ssa.Extract)
+				if !ok || e.Index != idx {
+					return false
+				}
+				c, ok := e.Tuple.(*ssa.Call)
+				return ok && c.Call.StaticCallee() == search
+			}, nil) {
+				used[idx] = true
+			}
+		}
+	})
+	ok := len(used) > 0
+	for k := range used {
+		if !disc[k] {
+			ok = false
+		}
+	}
+	nm := func(m map[int]bool) []string {
+		var out []string
+		for k := range m {
+			out = append(out, search.Signature.Results().At(k).Name())
+		}
+		return out
+	}
+	ctx.Check(ok, "DISC", "txtar.Parse#loop-condition", parse.Pos(), "Parse's loop tests %v; the search reports a hit through %v (other components can be empty although a marker was found, e.g. 'after' for a marker on the last line without newline)", nm(used), nm(disc))
 }
